@@ -5,6 +5,7 @@ import (
 	"fmt"
 	"reflect"
 	"strings"
+	"sync"
 )
 
 // Object holds the definition for objects comprised of defined fields.
@@ -52,6 +53,8 @@ type ObjectSchema struct {
 	PropertiesValue   map[string]*PropertySchema `json:"properties"`
 	IDUnenforcedValue bool                       `json:"id_unenforced"`
 
+	// defaultValues is initialized lazily for objects that were not built by one of the constructors (for example
+	// objects unserialized from a schema description); see GetDefaults.
 	defaultValues map[string]any // Key: Object field name, value: The default value
 
 	defaultValue     any
@@ -66,7 +69,21 @@ func (o *ObjectSchema) ReflectedType() reflect.Type {
 	return reflect.TypeOf(map[string]any{})
 }
 
+// objectDefaultValuesMutex guards the lazy initialization of ObjectSchema.defaultValues. Schemas are used
+// concurrently (the ATP server runs every step in its own goroutine), so the first uses of an object can race.
+// The mutex is shared by all objects because object schemas are copied by value (TypedObjectSchema), which a
+// mutex inside the struct would not survive; it is only held for a nil check or the one-time decoding.
+var objectDefaultValuesMutex sync.RWMutex
+
 func (o *ObjectSchema) GetDefaults() map[string]any {
+	objectDefaultValuesMutex.RLock()
+	defaultValues := o.defaultValues
+	objectDefaultValuesMutex.RUnlock()
+	if defaultValues != nil {
+		return defaultValues
+	}
+	objectDefaultValuesMutex.Lock()
+	defer objectDefaultValuesMutex.Unlock()
 	if o.defaultValues == nil {
 		o.defaultValues = extractObjectDefaultValues(o.PropertiesValue)
 	}
@@ -85,11 +102,16 @@ func (o *ObjectSchema) ApplyNamespace(objects map[string]*ObjectSchema, namespac
 
 func (o *ObjectSchema) ValidateReferences() error {
 	// Default values are decoded lazily on first use; make sure that this cannot fail later.
+	objectDefaultValuesMutex.Lock()
 	if o.defaultValues == nil {
-		if _, err := tryExtractObjectDefaultValues(o.PropertiesValue); err != nil {
+		defaultValues, err := tryExtractObjectDefaultValues(o.PropertiesValue)
+		if err != nil {
+			objectDefaultValuesMutex.Unlock()
 			return err
 		}
+		o.defaultValues = defaultValues
 	}
+	objectDefaultValuesMutex.Unlock()
 	for _, property := range o.PropertiesValue {
 		err := property.ValidateReferences()
 		if err != nil {
